@@ -374,6 +374,10 @@ class Reference:
 
 
 # ------------------------------------------------------------------------------------------ execution
+class DegeneratePlan(Exception):
+    pass
+
+
 class Ctx:
     def __init__(self, plan):
         self.plan = plan
@@ -491,6 +495,9 @@ def execute(plan: dict) -> Ctx:
             ctx.shape.append(op["op"])
             try:
                 OPS[op["op"]](ctx, i, op)
+            except DegeneratePlan:
+                ctx.degenerate = True
+                break
             except seams.InjectedAbort as e:
                 # an abort that escapes from an operation that was not meant to be aborted: harness problem
                 raise RuntimeError(f"stray InjectedAbort in op {i} {op}: {e}")
@@ -508,8 +515,15 @@ def op_build(ctx: Ctx, i, op):
         if n == "geometry" and cfg2["geometry"]["method"] == "NEARSQUARE":
             continue
         decoys.append((n, cfg2))
-    with Quiet():
-        mgr = gen.build_manager(cfg, order=op.get("order"), decoys=decoys)
+    try:
+        with Quiet():
+            mgr = gen.build_manager(cfg, order=op.get("order"), decoys=decoys)
+    except Exception as e:  # noqa: BLE001
+        # the API (a design constructor) rejects the seeded lot, e.g. a polygon on which no candidate field fits:
+        # degenerate input by every claimed property's quantifier; the plan ends here
+        ctx.bump(f"configuration_rejected_by_api:{type(e).__name__}")
+        ctx.log.add("build", [op.get("order"), op.get("decoys"), op.get("cfg_key")], ["rejected", type(e).__name__])
+        raise DegeneratePlan(str(e))
     ctx.mgrs[op["mgr"]] = mgr
     ctx.state[op["mgr"]] = {"cfg": cfg, "last": None, "aborted": False}
     ctx.log.add("build", [op.get("order"), op.get("decoys"), op.get("cfg_key")], None)
@@ -728,14 +742,19 @@ def op_reconf(ctx: Ctx, i, op):
     cur = st["cfg"]
     target = plan_cfg(ctx.plan, op["to"])
     changed = []
-    with Quiet():
-        for gname, secs in GROUPS.items():
-            if any(cur[sec] != target[sec] for sec in secs) or (gname == "pipe_borehole" and st.get("nominal_override")):
-                for sec in secs:
-                    if sec != "design":  # the design section is applied by set_design below
-                        gen._call_setter(mgr, sec, target, gen._LOADS_CACHE)
-                changed.append(gname)
-        mgr.set_design(flow_rate=target["design"]["flow_rate"], flow_type_str=target["design"]["flow_type"])
+    try:
+        with Quiet():
+            for gname, secs in GROUPS.items():
+                if any(cur[sec] != target[sec] for sec in secs) or (gname == "pipe_borehole" and st.get("nominal_override")):
+                    for sec in secs:
+                        if sec != "design":  # the design section is applied by set_design below
+                            gen._call_setter(mgr, sec, target, gen._LOADS_CACHE)
+                    changed.append(gname)
+            mgr.set_design(flow_rate=target["design"]["flow_rate"], flow_type_str=target["design"]["flow_type"])
+    except Exception as e:  # noqa: BLE001
+        ctx.bump(f"configuration_rejected_by_api:{type(e).__name__}")
+        ctx.log.add("reconf", [op["to"], changed], ["rejected", type(e).__name__])
+        raise DegeneratePlan(str(e))
     st["cfg"] = target
     st.pop("nominal_override", None)
     ctx.bump("probe:manager_reconfigured_between_finds")
@@ -785,8 +804,13 @@ def op_other(ctx: Ctx, i, op):
     cfg2 = plan_cfg(ctx.plan, op.get("cfg_key") or "cfg2")
     if op.get("cfg_key") == "variant":
         ctx.bump("probe:near_identical_design_ran_in_between")
-    with Quiet():
-        m2 = gen.build_manager(cfg2)
+    try:
+        with Quiet():
+            m2 = gen.build_manager(cfg2)
+    except Exception as e:  # noqa: BLE001
+        ctx.bump(f"configuration_rejected_by_api:{type(e).__name__}")
+        ctx.log.add("other", None, ["rejected", type(e).__name__])
+        return
     out = find_recorded(ctx, m2)
     if ctx.prop == "C20" and "ok" in out:
         _check_flow_records(ctx, i, cfg2, m2)
@@ -1582,7 +1606,8 @@ def run_plan(plan: dict) -> dict:
     count["gfunc_memo_hits"] = GMEMO.hits
     count["gfunc_memo_misses"] = GMEMO.misses
     GMEMO.hits = GMEMO.misses = 0
-    info = {"digest": ctx.log.run_digest(), "count": count, "nontrivial": len(ops) >= 3, "cost": len(ops),
+    info = {"digest": ctx.log.run_digest(), "count": count, "nontrivial": len(ops) >= 3 and not getattr(ctx, "degenerate", False),
+            "cost": len(ops),
             "sets": {"abstract_states": sorted(ctx.sets["abstract_states"]), "transitions": sorted(ctx.sets["transitions"]),
                      "outcome_classes": sorted(ctx.sets["outcome_classes"]), "history_shapes": [digest(ops)[:12]]},
             "sample": {"method": plan["cfg"]["geometry"]["method"], "pipe": plan["cfg"]["pipe"]["arrangement"],
